@@ -1,7 +1,8 @@
 #!/usr/bin/env python3
 """Must-fail corpus: applies each mutant / seeded change to a scratch worktree of /repo
 (outside /repo and /verif, removed afterwards) and checks that the named property check
-reports a violation (exit 1). Usage: selftest.py [name-substring ...]"""
+reports a violation (exit 1). Usage: selftest.py [name-substring ...]
+With SELFTEST_LANE=k/n only every n-th entry (offset k) is run, so that several lanes can share the machine."""
 import json, os, subprocess, sys, shutil, glob
 SCR = '/tmp/verif_selftest_wt_%d' % os.getpid()  # one scratch worktree per run, so runs can overlap
 def sh(cmd, **kw):
@@ -26,10 +27,14 @@ def main():
         shutil.copy(f, os.path.join(SCR, rel))
     ok = True
     results = []
+    lane = os.environ.get('SELFTEST_LANE', '')
+    lk, ln = (int(x) for x in lane.split('/')) if lane else (0, 1)
     try:
-        for ent in table:
+        for idx, ent in enumerate(table):
             name = ent['name']
             if want and not any(w in name for w in want):
+                continue
+            if idx % ln != lk:
                 continue
             sh(f'git -C {SCR} checkout -- . ')
             for rel in contract_files:
@@ -51,6 +56,6 @@ def main():
     finally:
         sh(f'git -C /repo worktree remove --force {SCR}'); shutil.rmtree(SCR, ignore_errors=True)
         shutil.rmtree(SNAP, ignore_errors=True)
-    json.dump(results, open('/verif/selftest/last_run.json', 'w'), indent=1)
+    json.dump(results, open('/verif/selftest/last_run%s.json' % (('_' + str(lk)) if lane else ''), 'w'), indent=1)
     sys.exit(0 if ok else 1)
 main()
